@@ -78,13 +78,15 @@ class Server:
     def close(self):
         try:
             i = self.request('shutdown', None)
-            self.pump(lambda m: m.get('id') == i and 'method' not in m, 3.0)
+            self.pump(lambda m: m.get('id') == i and 'method' not in m, 1.0)
             self.notify('exit', None)
-            self.p.wait(timeout=3)
+            self.p.stdin.close()
+            self.p.wait(timeout=1)
         except Exception:
             pass
         try:
             self.p.kill()
+            self.p.wait(timeout=1)
         except Exception:
             pass
 
@@ -115,7 +117,7 @@ def canon_diags(ds):
     return sorted(json.dumps({'range': d.get('range'), 'severity': d.get('severity'), 'message': d.get('message')}, sort_keys=True) for d in ds)
 
 
-def run_history(binary, lang_id, steps, delays='', settle=1.5, timeout=30.0):
+def run_history(binary, lang_id, steps, delays='', settle=0.8, timeout=30.0):
     """steps: list of (kind 'open'|'change', uri, version, text, gap_seconds). Returns observation dict."""
     s = start(binary, {'A2KIT_VERIF_DELAYS': delays} if delays else None)
     if s is None:
